@@ -3,3 +3,4 @@ NEXT GenNext
 CONSTANTS
   N = 3
   Labels = {"none", "dep", "dep-arch", "unselected", "after-subst"}
+  Fill = 1
